@@ -17,7 +17,7 @@ def table : List Entry := [
   ⟨"AttrStrings", .flat, .freeze, .freeze⟩,
   ⟨"AttrTensors", .nest, .deep, .deep⟩,
   ⟨"_AttrIterable.maybe", .flat, .freeze, .freeze⟩,
-  ⟨"BaseVars.variadic", .flat, .alias, .alias⟩,
+  ⟨"BaseVars.variadic", .flat, .freeze, .freeze⟩,
   ⟨"initializer", .flat, .copy, .copy⟩,
   ⟨"arguments(default)", .flat, .copy, .copy⟩,
   ⟨"constant(value)", .flat, .copy, .copy⟩,
